@@ -32,6 +32,26 @@ theorem restored_iff_still_running (cfg : HCfg) (eval : σ → SFrame → σ × 
     r ∈ compact (pre ++ r :: post) ↔ (run cfg eval .running env inp).1 = .running :=
   restart_restores_active cfg eval env pre post inp r k hnd hr hname hctx hid later cov ann
 
+/-- … and for an instance the serve loop itself started the first of those two assumptions is a
+    theorem (`started_covers`): whatever the resume mode, it is handed every later `.register` /
+    `.unregister` of its key -/
+theorem restored_iff_started_instance_still_running (parse : SFrame → Except String (HCfg × Resume))
+    (hparse : ParseOk parse) (name : String) (P Q : List SFrame) (r : SFrame) (s' : List SFrame) (st : Started)
+    (h : startHandler parse name (P ++ r :: Q) r = (s', some st)) (ext : List SFrame) (thr : SFrame)
+    (hnd : (s' ++ ext).Nodup)
+    (later : ∀ f ∈ Q ++ registeredFrame st.cfg :: ext, r.id < f.id)
+    (hres : ∀ x, st.resume = .after x → x ≤ r.id)
+    (eval : σ → SFrame → σ × EvalRes) (env : σ)
+    (ann : (∃ f ∈ Q ++ registeredFrame st.cfg :: ext,
+              classify f.topic = some (st.cfg.name, .unregistered) ∧ f.ctx = st.cfg.ctx ∧
+              metaGet f.mdata "handler_id" = some (idText r.id)) ↔
+           (run st.cfg eval .running env
+              (subscription st.cfg st.resume (P ++ r :: Q) ((s' ++ ext).drop st.subAt) thr)).1 = .stopped) :
+    r ∈ compact (s' ++ ext) ↔
+      (run st.cfg eval .running env
+        (subscription st.cfg st.resume (P ++ r :: Q) ((s' ++ ext).drop st.subAt) thr)).1 = .running :=
+  restart_restores_started parse hparse name P Q r s' st h ext thr hnd later hres eval env ann
+
 /-- nothing replaced comes back -/
 theorem replaced_not_restored (pre post : List SFrame) (k : Key) (r r2 : SFrame)
     (hnd : (pre ++ r :: post).Nodup) (h2 : r2 ∈ post) (hr2 : regOf k r2) :
